@@ -35,6 +35,15 @@ rc, out = sh("git -C /repo worktree add -f --detach %s HEAD" % repo)
 assert rc == 0, out
 try:
     rc, out = sh("git apply %s" % patch, cwd=repo)
+    if rc != 0:
+        # context has shifted: try a three-way merge and keep the result as the patch
+        rc, out = sh("git apply --3way %s && git reset -q && git diff > %s.rebased" % (patch, patch), cwd=repo)
+        if rc == 0 and os.path.getsize(patch + ".rebased") > 0:
+            shutil.copyfile(patch + ".rebased", patch)
+            meta["rebased"] = True
+        else:
+            sh("git checkout -q -- . ; git clean -fdq", cwd=repo)
+            rc = 1
     meta["patch_applies"] = rc == 0
     if rc != 0:
         meta["error"] = out[-500:]
@@ -92,8 +101,15 @@ finally:
     mp = os.path.join(out, "meta.json")
     if os.path.exists(mp):
         prev = json.load(open(mp))
-        det = prev.get("detection", {})
-        det.update(meta.get("detection", {}))
-        meta["detection"] = det
+        if not meta.get("patch_applies") and prev.get("confirmed"):
+            # the tree has moved on under the patch (later fix commits touch the
+            # same lines): the earlier evaluation, against its own base, stands
+            prev["applies_to_head"] = {"head": meta["base_commit"], "applies": False}
+            meta = prev
+        else:
+            det = prev.get("detection", {})
+            det.update(meta.get("detection", {}))
+            meta["detection"] = det
+            meta["applies_to_head"] = {"head": meta["base_commit"], "applies": True}
     json.dump(meta, open(mp, "w"), indent=1)
     print(pid, outk, "confirmed" if meta.get("confirmed") else "NOT CONFIRMED", json.dumps(meta.get("detection", {})))
